@@ -6,6 +6,9 @@ STREAMS = {
     'processor': dict(pkg='./cmd/processor'),
     'throttle': dict(pkg='./cmd/throttle'),
     'detector': dict(pkg='./cmd/detector', overlay={'motion/zz_verif_motion.go': 'motion/zz_verif_motion.go'}),
+    'fs': dict(daemon='./cmd/thermal-recorder', strace=True,
+               overlay={'cmd/thermal-recorder/zz_verif_main.go': 'thermal-recorder/zz_verif_main.go',
+                        'cmd/thermal-recorder/zz_verif_fs.go': 'thermal-recorder/zz_verif_fs.go'}),
     'loglimiter': dict(pkg='./cmd/loglimiter', overlay={'loglimiter/zz_verif_loglimiter.go': 'loglimiter/zz_verif_loglimiter.go'}),
 }
 
@@ -20,6 +23,9 @@ PROC_ASSUME = {
     'C13': ['ring capacity >= 1', 'fewer than 4e9 events (frame ids stay below the sentinel used for rejected content)'],
     'C17': ['no faults on the continuous/test sink and non-overlapping requests (outside that the monitor claims nothing; C12 covers faults)'],
 }
+
+DET_RULE = 'paired streams for two detectors in lockstep over small resolutions (3x3..10x8, one 160x120), pixel values at threshold / delta / count boundaries, kinds: plain (C07 spec), border and cold pairs (C08), FFC periods of length 1..gap+3 with times at 10s-1ns/10s/10s+1ns (C09a), pairs differing only before an FFC period or a reset (C09b/c), dynamic-threshold scenes with bounds unset/set and the mean below/inside/above (C15); non-trivial = motion reported on some but not all frames; distinct by op text'
+DET_TRUSTED = ['overlay accessors VerifThresh / VerifBackground / VerifFFCPeriodNs read unexported detector state', "IEEE arithmetic: the driver instantiates FloatOps with Lean's Float32/Float (bit-identical with Go on amd64 in every run so far); theorems hold for every FloatOps instance"]
 
 PROPS = {
     'C19': dict(
@@ -100,6 +106,30 @@ PROPS = {
         trusted=['upstream obeys the recorder protocol (start write* stop)* - proved for the processor in C12 - enforced identically by harness and model'],
         assumptions=['at the excluded point "start; start" the real code forwards two starts (unreachable from the daemon)'],
     ),
+    'C07': dict(
+        lean=['Props.C07', 'Props.FactsProc'],
+        streams=['detector'],
+        rule=DET_RULE, trusted=DET_TRUSTED,
+        assumptions=['fixed threshold, no FFC-affected frame (C09 covers FFC)', 'count-thresh >= 1', 'pixel values < 65536 (uint16 in the real code)'],
+    ),
+    'C08': dict(
+        lean=['Props.C08', 'Props.FactsProc'],
+        streams=['detector'],
+        rule=DET_RULE, trusted=DET_TRUSTED,
+        assumptions=['same event skeleton (resets, FFC flags) in both streams'],
+    ),
+    'C09': dict(
+        lean=['Props.C09', 'Props.FactsProc'],
+        streams=['detector'],
+        rule=DET_RULE, trusted=DET_TRUSTED,
+        assumptions=['same event skeleton in both histories', 'dynamic threshold: no reset before/inside the FFC period (KNOWN-FINDING F7 otherwise)'],
+    ),
+    'C15': dict(
+        lean=['Props.C15', 'Props.FactsProc'],
+        streams=['detector'],
+        rule=DET_RULE, trusted=DET_TRUSTED,
+        assumptions=['LowerLaw: new < bg -> float32(new) - w < float32(bg), true for the non-negative weights that occur', 'the float64 mean is within one count of the exact mean (validated by the monitor, not proved)', 'the clause "background and threshold stored with a recording are those at the trigger" is covered by the e2e stream'],
+    ),
 }
 
 NOT_APPLICABLE = {}
@@ -149,6 +179,26 @@ MANIFEST_TEXT = {
         note=_COMMON_NOTE + 'the executable monitor that states the property is part of the trusted reading of the statement (lean/TR/ProcMon.lean, lean/TR/ThrMon.lean).',
         technique='Lean 4 proof (product invariant of model x ghost x monitor, induction over the event list) + differential correspondence',
         design_ref='DESIGN.md 5/C06'),
+    'C07': dict(
+        text='Theorem for every resolution, edge, gap, threshold configuration with count-thresh >= 1, every frame sequence with resets anywhere and every instance of the floating-point parameter: with a fixed threshold and no FFC-affected frame the detector model reports motion exactly per the declarative specification (count of interior pixels whose clamped difference to the frame gap earlier exceeds delta, in this and - unless one-diff - the previous comparison); first frame of the stream / after a reset never motion. Refinement through the ring ghost (C19).',
+        note=_COMMON_NOTE + 'floating point (float32 weights, float64 mean) is a parameter of the model: executed bit-exactly in the driver, opaque to the kernel.',
+        technique='Lean 4 proof (ghost-state refinement / relational invariant over two runs, induction over the event list) + differential correspondence',
+        design_ref='DESIGN.md 5/C07'),
+    'C08': dict(
+        text='Relational theorems over two runs of the detector model: streams with the same skeleton that agree on every interior pixel give equal verdicts, thresholds and interior background (fixed or dynamic threshold, any edge); with a fixed threshold, streams that agree after raising pixels to temp-thresh give equal verdicts; the stored background frame depends on interior pixels only.',
+        note=_COMMON_NOTE + 'floating point (float32 weights, float64 mean) is a parameter of the model: executed bit-exactly in the driver, opaque to the kernel.',
+        technique='Lean 4 proof (ghost-state refinement / relational invariant over two runs, induction over the event list) + differential correspondence',
+        design_ref='DESIGN.md 5/C08'),
+    'C09': dict(
+        text='(a) every frame that is FFC-affected or follows an affected frame is reported as no motion, for all configurations and runs; (b) two histories with the same skeleton and arbitrary different contents before an FFC period give equal verdicts from the period on (fixed threshold: always; dynamic: without resets - the full dynamic statement is refuted by a decide-checked counterexample = known finding F7); (c) with a fixed threshold, verdicts after a reset do not depend on frames before it.',
+        note=_COMMON_NOTE + 'floating point (float32 weights, float64 mean) is a parameter of the model: executed bit-exactly in the driver, opaque to the kernel.',
+        technique='Lean 4 proof (ghost-state refinement / relational invariant over two runs, induction over the event list) + differential correspondence',
+        design_ref='DESIGN.md 5/C09'),
+    'C15': dict(
+        text='Theorems for one detect step from an arbitrary state (hence every reachable state) and for whole runs, for every FloatOps instance satisfying LowerLaw: interior background <= current non-FFC frame; stored border = nearest interior pixel; re-seeded from the frame after FFC / first frame after reset; threshold is either unchanged or clampThresh(trunc(mean of interior background)), recomputed exactly when changed and backgroundFrames > previewFrames; clamp stays within set bounds and is the identity inside them; FFC frames leave background and threshold untouched.',
+        note=_COMMON_NOTE + 'floating point (float32 weights, float64 mean) is a parameter of the model: executed bit-exactly in the driver, opaque to the kernel.',
+        technique='Lean 4 proof (ghost-state refinement / relational invariant over two runs, induction over the event list) + differential correspondence',
+        design_ref='DESIGN.md 5/C15'),
     'C19': dict(
         text='Theorems for every capacity >= 1 and every operation sequence: GetHistory/Oldest/CopyRecent of the FrameLoop model equal a '
              'three-line list specification (refinement through a ghost state, proved by induction over the operation list); the model is '
